@@ -86,6 +86,8 @@ pub fn profiles() -> Vec<Profile> {
         Profile { repair: false, ..Profile::full() },
         Profile { max_rules: 8, ..Profile::full() },
         Profile { pratt: true, parts: true, repair: false, ..Profile::base("pratt-mix") },
+        // many rules: several fixpoint rounds, long reference chains in both directions of the declaration order
+        Profile { max_rules: 16, max_tokens: 8, depth: 2, name: "big", ..Profile::full() },
     ]
 }
 
@@ -155,7 +157,7 @@ pub fn run(ctx: &Ctx) -> i32 {
     // random
     let cases = ctx.tier.pick(300_000u32, 3_000_000u32);
     for p in profiles() {
-        let out = prop::run_prop("C09", ctx.tier, ctx.seed, p.name, cases / 5, ctx.threads, 400, |stream, ev| {
+        let out = prop::run_prop("C09", ctx.tier, ctx.seed, p.name, cases / 6, ctx.threads, if p.name == "big" { 900 } else { 400 }, |stream, ev| {
             let g = ggen::build(&p, stream);
             check_grammar(&g, ev, p.name).map(|_| ())
         });
